@@ -180,9 +180,17 @@ fn lit(s: &str) -> String {
     o
 }
 
-fn script(program: &str, ops: &[Op]) -> String {
+/// placement of the builder calls: 0 = straight line; 1 = each call inside a one-iteration loop
+/// body (a frame reset separates it from `run`); 2 = each call inside a function that mutates
+/// the outer command
+fn script(program: &str, ops: &[Op], placement: u8) -> String {
     let mut s = format!("make c get command({})\nc.arg(\"dump\")\n", lit(program));
-    for op in ops {
+    for (k, op) in ops.iter().enumerate() {
+        match placement {
+            1 => s.push_str(&format!("make i{k} get 0\njasi (i{k} small pass 1) start\ni{k} get i{k} add 1\n")),
+            2 => s.push_str(&format!("do b{k}() start\n")),
+            _ => {}
+        }
         s.push_str(&match op {
             Op::Arg(a) => format!("c.arg({})\n", lit(a)),
             Op::ArgNum(n) => format!("c.arg({n})\n"),
@@ -199,6 +207,11 @@ fn script(program: &str, ops: &[Op]) -> String {
                 }
             }
         });
+        match placement {
+            1 => s.push_str("end\n"),
+            2 => s.push_str(&format!("end\nb{k}()\n")),
+            _ => {}
+        }
     }
     s.push_str("c.stdout_capture()\nmake r get c.run()\nshout(r.exit_code())\nshout(r.stdout())\n");
     s
@@ -272,7 +285,22 @@ fn check_state(ctx: &mut Ctx, d: &Dirs, program: &str, ops: &[Op], caps: Process
     for op in ops {
         m.apply(op);
     }
-    let src = script(program, ops);
+    for placement in 0..3u8 {
+        if placement > 0 && ops.is_empty() {
+            break;
+        }
+        check_state_placed(ctx, d, program, ops, caps, spawned, refused, &m, placement)
+            .map_err(|(c, mut j)| {
+                j["placement"] = json!(["straight-line", "each call in a loop body", "each call in a function"][placement as usize]);
+                (c, j)
+            })?;
+    }
+    Ok(())
+}
+
+#[allow(clippy::too_many_arguments)]
+fn check_state_placed(ctx: &mut Ctx, d: &Dirs, program: &str, ops: &[Op], caps: ProcessCaps, spawned: &mut u64, refused: &mut u64, m: &Model, placement: u8) -> Result<(), Bad> {
+    let src = script(program, ops, placement);
     // --- policy: processes forbidden → always denied, nothing spawned
     if !m.builder_error {
         clear_markers(d);
